@@ -382,6 +382,16 @@ def run(report, db, tier):
                 'order (%s)' % (len(flips), ', '.join(
                     '%s:%s->%s' % (P.vname(a), b, c) for a, b, c in
                     flips[:4])))
+    # the layout is chosen from packet.context: a packet sent on a connection
+    # must carry that connection's context
+    from ..callgraph import CallGraph
+    from ..connmodel import ConnModel
+    from .. import shared
+    cg = CallGraph(db)
+    R6 = report.rule('R04.6', 'of the connection\'s protocol: write_packet '
+                     'imposes the connection\'s context on every packet')
+    shared.context_imposed(report, R6, db, shared.summariser(db, cg),
+                           ConnModel(db, cg))
 
 
 def boundary_constants(fi):
